@@ -196,7 +196,9 @@ func (s *Server) Run(addr string, opt ...Option) error {
 		go func() {
 			defer func() {
 				s.logger.Debug("connWg done", "op", op, "conn", localConnID)
-				s.connWg.Done()
+				// release the wait group last, so Stop only returns once the
+				// conn is closed and the onCloseHandler has completed
+				defer s.connWg.Done()
 				err := conn.close()
 				if err != nil {
 					s.logger.Error("error closing conn", "op", op, "conn", localConnID, "conn/req", "err", err)
